@@ -228,6 +228,11 @@ func (r *Recorder) PostReadReplyBody(c erpc.ReadCtx) *erpc.Status { return r.r("
 type Slow struct {
 	Env *Env
 	P   float64
+	// PostLaunch / PreLaunch also delay the caller's side after / before a call or push frame is written
+	// (PostWriteCall, PostWritePush / PreWriteCall, PreWritePush), for up to LaunchMax of fake time: the
+	// call is on the wire but AsyncCall has not returned yet.
+	PostLaunch, PreLaunch bool
+	LaunchMax             time.Duration
 }
 
 func (s *Slow) Name() string { return "slow" }
@@ -241,6 +246,20 @@ func (s *Slow) delay() *erpc.Status {
 	}
 	return nil
 }
+func (s *Slow) launch(on bool) *erpc.Status {
+	if on && s.Env.Gen.Chance(s.P) {
+		max := s.LaunchMax
+		if max <= 0 {
+			max = 3 * time.Millisecond
+		}
+		simrt.Sleep(time.Duration(1+s.Env.Gen.Intn(int(max/time.Microsecond))) * time.Microsecond)
+	}
+	return nil
+}
+func (s *Slow) PreWriteCall(erpc.WriteCtx) *erpc.Status    { return s.launch(s.PreLaunch) }
+func (s *Slow) PostWriteCall(erpc.WriteCtx) *erpc.Status   { return s.launch(s.PostLaunch) }
+func (s *Slow) PreWritePush(erpc.WriteCtx) *erpc.Status    { return s.launch(s.PreLaunch) }
+func (s *Slow) PostWritePush(erpc.WriteCtx) *erpc.Status   { return s.launch(s.PostLaunch) }
 func (s *Slow) PreWriteReply(erpc.WriteCtx) *erpc.Status   { return s.delay() }
 func (s *Slow) PostReadCallBody(erpc.ReadCtx) *erpc.Status { return s.delay() }
 func (s *Slow) PostReadPushBody(erpc.ReadCtx) *erpc.Status { return s.delay() }
